@@ -36,6 +36,17 @@ CHECKS = {
         BASE_NOTE + 'Header tokenisation, fnmatch bracket classes and the pandas codecs are covered by the correspondence only.',
         'DESIGN.md section 5 C19',
     ),
+    'C20': (
+        'Rocq proof (key-wise merge law, path override over stacks, permutation invariance of bank registration) + differential correspondence',
+        'Theorems (Properties/C20.v): one merge step obeys the key-by-key law at any table; for any stack of sources and any '
+        'path depth the last source setting the path to a scalar wins when later sources leave it untouched, unrelated keys '
+        'survive, lists are merged new-first, with the same members and duplicate-free; for every collision-free provider class '
+        'set every registration order succeeds and yields the same reference map, alias and qualified name denote the same class, '
+        'abstract classes are never returned, unknown references are missing, a taken reference rejects the registration. '
+        'Correspondence: TOML stacks through setup.Config; provider class sets against fresh interfaces incl. lazily imported modules.',
+        BASE_NOTE + 'tomli and the import machinery are exercised by the correspondence only; set-iteration order in merge is covered by repeated hash seeds in the thorough tier.',
+        'DESIGN.md section 5 C20',
+    ),
 }
 NOT_YET = 'model and theorems not built yet in this round (planned, see DESIGN.md section 5/9)'
 
